@@ -138,6 +138,19 @@ CLAIMED["C19"] = dict(
     technique="contract-based deductive verification: modular recursion + homomorphism lemmas over the real AST, z3",
     design="DESIGN.md §3 C19")
 
+CLAIMED["C13"] = dict(
+    text="Proved for row lists of every length: get_dim() == (len(get_table()), max row length) and get_table() for all six table classes "
+         "(symbolic lists, prefix invariants); typed values (xlsx _get_cell_value, xls _get_cell_value(s), _format_date_tuple: number->int when integral, "
+         "bool, date->ISO text); the pptx table walker against the grid spec for a tree of symbolic shape (any rows x any ragged cells). All other walkers / "
+         "sheet builders (docx, odt, odp, html, epub, xlsx, xls, ods, iterate_tables) are checked only as BOUNDED enumerations of a stated grammar "
+         "(never counted as proved). 13 recorded known findings with native witnesses (nested tables in docx/odt/odp/html/epub, html paragraphs run "
+         "together, epub inline markup, xlsx first row / title row, XLS dict rows F14, ods header-rows wrapper, xls time-only / unconvertible dates).",
+    note="Assumed: ElementTree / html.parser / openpyxl / xlrd models (contracts/etree_model.py, C13.py ASSUMED_MODELS), paragraph-text helpers (C02), "
+         "PY-COMP, PY-MAX, PY-FLOAT-REAL; ISO = RFC 3339 profile. Not decided: RTF tables, merged cells, ODS repeats > 100, docx tables in content controls.",
+    technique="contract-based deductive verification: symbolic-length lists with prefix invariants over the real AST, z3; bounded exhaustive symbolic "
+              "execution over tree shapes for the walkers (labelled BOUNDED)",
+    design="DESIGN.md §3 C13")
+
 PENDING = {}
 
 ALL = [f"C{i:02d}" for i in range(1, 21)]
